@@ -74,6 +74,10 @@ func BytesToToken(b []byte) string     { return string(b) }
 func Note(s string)                    {}
 func CheckAlloc() {}
 
+// LiveBytes is the size of the heap reachable from all active frames and package-level variables
+// at this instant (engine/heap.go): byte buffers by capacity, other cells 8 bytes each.
+func LiveBytes() int { return 0 }
+
 // BytesEqual compares two byte slices (one solver term, no branching).
 func BytesEqual(a, b []byte) bool {
 	if len(a) != len(b) {
@@ -98,3 +102,11 @@ func UFBytes64(fn string, s string) []byte { return make([]byte, 8) }
 // OtherThreadHolds marks a *sync.Mutex as currently held by another thread that will release it:
 // Lock then waits (and succeeds), TryLock fails.
 func OtherThreadHolds(mutex interface{}) {}
+
+// KeepSymbolicBounds: slices of engine-tracked buffers keep symbolic bounds symbolic instead of being
+// case-split (for models in which only sizes matter, not contents).
+func KeepSymbolicBounds(on bool) {}
+
+// LiveBytesExcluding: like LiveBytes, not counting what is reachable from the given roots (the modelled
+// disk, harness bookkeeping).
+func LiveBytesExcluding(roots ...interface{}) int { return 0 }
